@@ -15,9 +15,10 @@ and `str.isspace` (the latter over every code point) by the correspondence.
 
 A student execution is abstracted to the trace of what it did to standard I/O:
 `write text` (print in any form, sys.stdout.write — `text` is exactly what reached the
-stream) and `read prompt` (a call of `input`).  The guard of `append_output`, the end of
-the queue `_input_tracker` pops and the default input are read from the source by
-harness/translate_sandboxio.py (`PedalModel/Gen/SandboxIOGen.lean`).
+stream) and `read prompt` (a call of `input`).  The condition under which `append_output` touches the
+line view (a boolean expression, `GuardExpr`), the end of the queue the mocked `input`
+pops and the default input are read from the source - and measured on a fresh sandbox -
+by harness/translate_sandboxio.py (`PedalModel/Gen/SandboxIOGen.lean`).
 -/
 namespace Pedal.SandboxIO
 open Pedal.Gen.SandboxIO
@@ -152,20 +153,36 @@ structure St where
 
 def init : St := { raw := [], lines := [], inputs := .queue [], contexts := [] }
 
-def guardHolds (accumulated own : Str) : Bool :=
-  match appendGuard with
-  | .own => !own.isEmpty
-  | .accumulated => !accumulated.isEmpty
-  | .always => true
-  | .unknown => false
+/-- Value of the translated guard expression on one call of `append_output`:
+`prior` / `own` = the raw output before the call / the text of this execution is non-empty
+(`acc`, the raw output after `+=`, is non-empty iff one of them is).  `none`: the expression
+contains something the translator did not understand. -/
+def evalGuard : GuardExpr → Bool → Bool → Option Bool
+  | .own, _, o => some o
+  | .prior, p, _ => some p
+  | .acc, p, o => some (p || o)
+  | .const b, _, _ => some b
+  | .not e, p, o => (evalGuard e p o).map (!·)
+  | .and a b, p, o =>
+    match evalGuard a p o, evalGuard b p o with
+    | some x, some y => some (x && y)
+    | _, _ => Option.none
+  | .or a b, p, o =>
+    match evalGuard a p o, evalGuard b p o with
+    | some x, some y => some (x || y)
+    | _, _ => Option.none
+  | .unknown, _, _ => Option.none
+
+/-- does `append_output` touch the line view (raw output so far `prior`, this execution's text `own`) -/
+def guardHolds (prior own : Str) : Bool :=
+  (evalGuard appendGuard (!prior.isEmpty) (!own.isEmpty)).getD false
 
 /-- `Sandbox.append_output(raw_output, context)` (the context is created by `_execute`). -/
 def appendOutput (s : St) (text : Str) (got : List Str) : St :=
-  let raw' := s.raw ++ text
   { s with
-    raw := raw'
+    raw := s.raw ++ text
     contexts := s.contexts ++ [{ output := text, inputs := got }]
-    lines := if guardHolds raw' text then s.lines ++ linesOf text else s.lines }
+    lines := if guardHolds s.raw text then s.lines ++ linesOf text else s.lines }
 
 inductive Op where
   | exec (pre : Option InputArg) (trace : List Event)   -- run / call / evaluate (`inputs=` argument)
